@@ -97,7 +97,24 @@ def c01(ctx, res):
                         "cast uses the default flags over the texts {7, 1, true}; the full cast chain is C14"]
 
 
+def c02(ctx, res):
+    t = "quick" if ctx.quick else "thorough"
+    for fam in ("names", "attrs", "vals"):
+        ctx.gen_replay(res, "enc", "MC_C02.tla", "MC_C02_%s_%s.cfg" % (fam, t), procs=16)
+    res.assumptions += ["encoding/xml as the definition of well-formedness and as tokenizer of the indented output",
+                        "indented output compared with the compact one up to white space that the decoder trims (under keep-spaces: tabs/newlines only; indent string is a tab)",
+                        "the non-ASCII placeholder ~ of the specification's alphabet is substituted by a two-byte rune on the Go side"]
+
+
+def c03(ctx, res):
+    ctx.gen_replay(res, "encv", "MC_C03.tla", "MC_C03_quick.cfg" if ctx.quick else "MC_C03_thorough.cfg", procs=8)
+    res.assumptions += ["scalars are rendered by Go's %v; number formatting is trusted (tokens are canonical: 1.5, true)",
+                        "domain: the text key and attribute keys hold non-nil scalars; a single top-level key is a valid element name"]
+
+
 PROPS = {
+    "C02": c02,
+    "C03": c03,
     "C01": c01,
     "C18": c18,
     "C13": c13,
